@@ -488,6 +488,68 @@ def build_args(seed_key, argtypes, n, kinds, ctx, longer=None, runs=False):
     return [p.fresh() if p is not None else None for p in protos]
 
 
+def run_unmasked_rhs(owner_name, owner, name, f, argtypes, sigtxt, ctx):
+    """In-place operators accept, for a masked-reference left side, a right side dimensioned like the UNMASKED array
+    (documented leniency of match_dimension): element k of the reference is then combined with rhs[raw index of k]."""
+    for n in (LENGTHS[0], LENGTHS[-1]):
+        key = "%s|mU" % sigtxt
+        r = Rng(a.seed, key, n)
+        lhs = Proto(argtypes[0], n, r, "masked", ctx)
+        full = len(lhs.base)
+        rhs = Proto(argtypes[1], full, r, "plain", ctx)
+        raw = [i for i in range(full) if lhs.mask[i]]
+        vpool.install(0, 1, 0)
+        v = [lhs.fresh(), rhs.fresh()]
+        before = [copy_elem(v[0][k]) for k in range(n)]
+        try:
+            call(f, owner_name, name, v)
+        except Exception:
+            R.cls("unmasked_length_rhs_refused")
+            return
+        R.ev()
+        R.cls("masked_lhs_unmasked_length_rhs_calls")
+        base = [snap(x) for x in v]
+        idxs = sorted(set(list(range(min(n, 16))) + list(range(max(0, n - 6), n))))
+        rfresh = rhs.fresh()
+        for k in idxs:
+            ok, sres, spost = scalar_counterpart(owner_name, owner, name, f, [_One(before[k]), _One(rfresh[raw[k]])], argtypes, 0)
+            if not ok:
+                R.cls("o2_no_counterpart")
+                break
+            R.ev()
+            got, want = canon(v[0][k]), canon(spost)
+            if deep(got) != deep(want) and not close_enough(got, want, ulps=64, eps=1.2e-7 if "f" in argtypes[0][:4].lower() else 2.3e-16):
+                R.fail("elementwise:%s.%s:masked_lhs_unmasked_length_rhs_wrong_element" % (owner_name, name), sig=sigtxt, n=n, k=k, raw_index=raw[k], got=got, want=want)
+                break
+        if n > 200:
+            for mode, s2 in [(1, 0), (1, 1), (2, 0), (3, 0)]:
+                if (mode == 1 and "seq" not in MODE) or (mode == 2 and "thr" not in MODE.split(",")) or (mode == 3 and "thrd" not in MODE):
+                    continue
+                v2 = [lhs.fresh(), rhs.fresh()]
+                vpool.install(mode, WORKERS, (a.seed * 31337 + hash_str(key) + s2 * 7919 + n) & 0x7fffffffffff)
+                try:
+                    call(f, owner_name, name, v2)
+                    got = [snap(x) for x in v2]
+                except Exception as e:
+                    got = ("raise", type(e).__name__)
+                finally:
+                    vpool.install(0, 1, 0)
+                R.ev()
+                if got != base:
+                    R.fail("partition_dependence:%s.%s:%s:masked_lhs_unmasked_length_rhs" % (owner_name, name, {1: "seq", 2: "thr", 3: "thr_delay"}[mode]), sig=sigtxt, n=n)
+                    break
+
+
+class _One:
+    """adapter: lets scalar_counterpart pick 'element 0' of a single value"""
+
+    def __init__(self, v):
+        self.v = v
+
+    def __getitem__(self, i):
+        return self.v
+
+
 def call(f, owner_name, name, vals):
     if name == "__init__":
         return getattr(I, owner_name)(*vals[1:])
@@ -521,6 +583,11 @@ def run_entry(owner_name, owner, name, f, argtypes, ret):
             for j in a1pos:
                 k[j] = "masked"
             combos.append(k)
+    if name.startswith("__i") and name != "__init__" and len(argtypes) == 2 and is_a1(argtypes[0]) and is_a1(argtypes[1]):
+        try:
+            run_unmasked_rhs(owner_name, owner, name, f, argtypes, sigtxt, ctx)
+        except KeyError:
+            pass
     supported = True
     for kinds in combos:
         kk = "".join("m" if k == "masked" else "p" for k, t in zip(kinds, argtypes) if is_a1(t))
